@@ -92,7 +92,7 @@ fn install() {
                 m.insert("ev".into(), json!(name));
                 m.insert("tid".into(), json!(tid));
                 for (k, v) in args {
-                    m.insert((*k).into(), json!(*v));
+                    m.insert((*k).into(), json!((*v).min(2_000_000_000))); // TLC integers are 32-bit
                 }
                 tr.push(Value::Object(m));
             }
